@@ -3,7 +3,6 @@ package c12
 import (
 	"fmt"
 	"image/color"
-	"math"
 
 	"github.com/tdewolff/canvas"
 
@@ -53,23 +52,15 @@ func checkUnits(r *fw.R, be backend) {
 	var act *displayList
 	if be.family == "ps" {
 		var h psHeader
-		act, h = interpretPS(data, false)
-		if h.hasBBox {
+		var ok bool
+		act, h, ok = interpretPS(data)
+		if h.hasBBox && !ok {
+			// DSC: the bounding box is expressed in the default user coordinate system (1/72 inch)
 			w, hh := (h.bbox[2]-h.bbox[0])*mmPerPt, (h.bbox[3]-h.bbox[1])*mmPerPt
-			if math.Abs(w-CW) > 0.5 || math.Abs(hh-CH) > 0.5 {
-				// DSC: the bounding box is expressed in the default user coordinate system (1/72 inch)
-				r.Outcome("violation:ps-units")
-				r.Violate("ps-units", fmt.Sprintf("[%s] %%%%BoundingBox: %g %g %g %g is in PostScript units of 1/72 inch, i.e. %.3f mm x %.3f mm; the canvas is %g mm x %g mm. The program never scales the user space (no '72 25.4 div dup scale'), so every millimetre of the canvas is emitted as one point (x0.3528)\n%s output: %s",
-					be.name, h.bbox[0], h.bbox[1], h.bbox[2], h.bbox[3], w, hh, CW, CH, be.name, clipStr(emitted(be, data), 600)))
-				// the geometry relative to the box is what every other family compares
-				act, _ = interpretPS(data, true)
-				r.NontrivialIdx()
-				for _, v := range compareLists(r, be, exp, act, ops) {
-					r.Outcome("violation:" + v.class)
-					r.Violate(v.class, "["+be.name+"] "+v.detail)
-				}
-				return
-			}
+			r.Outcome("violation:ps-units")
+			r.Violate("ps-units", fmt.Sprintf("[%s] %%%%BoundingBox: %g %g %g %g is in PostScript units of 1/72 inch, i.e. %.3f mm x %.3f mm; the canvas is %g mm x %g mm. The program never scales the user space (no '72 25.4 div dup scale'), so every millimetre of the canvas is emitted as one point (x0.3528)\n%s output: %s",
+				be.name, h.bbox[0], h.bbox[1], h.bbox[2], h.bbox[3], w, hh, CW, CH, be.name, clipStr(emitted(be, data), 600)))
+			// the geometry relative to the box is what is compared below and in every other family
 		}
 	} else {
 		act = interpret(be, data)
